@@ -34,8 +34,10 @@ TRUSTED_BASE = [
     'non-str, non-bool, non-int objects enter the model as (str(obj), outcome of int(obj)) supplied by the runtime',
 ]
 UNMODELLED = [
-    'str.lower() of cased non-ASCII characters (model lowerChar is the identity outside ASCII): excluded from the '
-    'correspondence domain (ASCII + str.isspace code points + Unicode Nd digits), covered by the implementation-only search',
+    'str.lower() of cased non-ASCII characters that no case operation / NFKC relates to ASCII letters (the model lowers '
+    'ASCII and the generated 167-entry table of look-alikes - long s, Kelvin sign, dotted/dotless i, ligatures, sharp s, '
+    'fullwidth and circled letters, Roman numerals - and is the identity elsewhere): those are excluded from the '
+    'correspondence domain and covered by the implementation-only search',
     'error message texts (only the exception class is compared)',
     'str subclasses, objects with __int__/__index__/__str__ side effects, objects with a replace attribute',
     'generate_uuid randomness (its output is fed to both sides)',
@@ -59,7 +61,8 @@ WS_CHARS = [chr(c) for c in WS]
 INT_WS = set(chr(c) for c in WS if c not in (0x1c, 0x1d, 0x1e, 0x1f))
 ND_SAMPLE = [chr(c) for z in (0x660, 0x966, 0xff10, 0x1d7ce, 0x1d7d8, 0x1e950) for c in range(z, z + 10)]
 ASCII = [chr(c) for c in range(128)]
-DOMAIN = ASCII + [c for c in WS_CHARS if ord(c) >= 128] + ND_SAMPLE
+CASE_RELATED = C14_gen.case_related()       # non-ASCII characters that case operations relate to ASCII letters
+DOMAIN = ASCII + [c for c in WS_CHARS if ord(c) >= 128] + ND_SAMPLE + [chr(cp) for cp in sorted(CASE_RELATED)]
 OUTSIDE = list('ＴＲＵＥｔｒｕｅİıſKÀéßΣσςǅǆＡａＦｆ①²٣൧Ⅷ') + [chr(0x10400), chr(0x1f600), chr(0x7f), chr(0xad), chr(0x200b),
                                                    chr(0xfeff), chr(0x180e)]
 HEXL, HEXU = '0123456789abcdef', '0123456789ABCDEF'
@@ -106,6 +109,34 @@ def mathbold(w):
         else:
             out.append(c)
     return ''.join(out)
+
+
+def _case_substitutions():
+    """(ascii text t, look-alike character c): some case operation or NFKC maps c to t (compared caselessly)"""
+    subs = set()
+    for cp, d in CASE_RELATED.items():
+        for t in (d['lower'], d['upper'], d['casefold'], d['nfkc']):
+            for t2 in (t, t.lower(), t.casefold()):
+                if t2.isascii() and t2.isalnum():
+                    subs.add((t2.lower(), chr(cp)))
+    return sorted(subs)
+
+
+CASE_SUBS = _case_substitutions()
+
+
+def case_confusables(w):
+    """every spelling of the ASCII word `w` with one occurrence of a letter (sequence) replaced by a non-ASCII
+    character that lower()/upper()/casefold()/NFKC relate to it: 'yes' -> 'ye\u017f', 'off' -> 'o\ufb00', 'on' ->
+    '\uff4fn' ...; none of them is `w` in any case"""
+    out = []
+    lw = w.lower()
+    for t, c in CASE_SUBS:
+        i = lw.find(t)
+        while i >= 0:
+            out.append(w[:i] + c + w[i + len(t):])
+            i = lw.find(t, i + 1)
+    return out
 
 
 INVISIBLE = ['\u200b', '\ufeff', '\u00ad', '\u2060', '\u180e', '\u200e', '\u034f', '\x00', '\x7f']
@@ -401,11 +432,14 @@ def gen_bool_values(rng, n, alphabet):
             out.append((vstr(w + ws), 'word-rpad-each-ws'))
     for v in other_values(rng) + [vint(k) for k in (0, 1, 2, -1, 10, 11)]:
         out.append((v, 'nonstr/' + v['t']))
-    if len(alphabet) > len(DOMAIN):                   # search only: str.lower() of these is outside the model's domain
-        for w in words:
-            for c in confusables(rng, w) + confusables(rng, w.upper()):
-                out.append((vstr(c), 'confusable'))
-                out.append((vstr(rng.choice(WS_CHARS) + c + rng.choice(WS_CHARS)), 'confusable'))
+    for w in words:                                   # look-alikes: never a documented word in any case
+        for c in confusables(rng, w) + confusables(rng, w.upper()):
+            out.append((vstr(c), 'confusable'))
+            out.append((vstr(rng.choice(WS_CHARS) + c + rng.choice(WS_CHARS)), 'confusable'))
+        for c in case_confusables(w) + case_confusables(w.upper()) + case_confusables(recase(rng, w, 'mixed')):
+            out.append((vstr(c), 'confusable/case'))
+            if rng.random() < 0.25:
+                out.append((vstr(rng.choice(WS_CHARS) + c + rng.choice(WS_CHARS)), 'confusable/case'))
     lim = sys.get_int_max_str_digits()
     if lim > 0:                                       # str(int) at the conversion limit (known finding C14-F2)
         out.append((V('int', '1', zeros=lim - 1), 'limit/int/+0'))
@@ -646,11 +680,18 @@ def gen_uuid(rng, n, alphabet):
         out.append((vstr(s), 'odd'))
     for v in other_values(rng) + [vint(int(h, 16)), vint(0)]:
         out.append((v, 'nonstr/' + v['t']))
-    if len(alphabet) > len(DOMAIN):                   # search only (str.lower() outside the model's domain)
-        for dname, dec in sorted(DECORATIONS.items()):
-            for case in ('lower', 'upper'):
-                for c in confusables(rng, dec(hex_string(rng, 32, case))):
-                    out.append((vstr(c), 'confusable/' + dname))
+    for dname, dec in sorted(DECORATIONS.items()):
+        for case in ('lower', 'upper'):
+            hx = hex_string(rng, 32, case)
+            for c in confusables(rng, dec(hx)):
+                out.append((vstr(c), 'confusable/' + dname))
+            cc = case_confusables(hx)
+            for c in rng.sample(cc, min(6, len(cc))):
+                out.append((vstr(dec(c) if dname == 'plain' else c), 'confusable/case'))
+    for t, c in CASE_SUBS:                            # 'urn:' / 'uuid:' spelled with a look-alike
+        for pre in ('urn:uuid:', 'uuid:', 'urn:'):
+            if t in pre:
+                out.append((vstr(pre.replace(t, c, 1) + hex_string(rng, 32)), 'confusable/prefix'))
     pieces = ['urn:', 'uuid:', '{', '}', '-', 'u', 'ur', 'uu', 'uui', 'uuid', 'urn', ':', 'rn:', 'id:']
     while len(out) < n:
         r = rng.random()
@@ -912,6 +953,15 @@ def check_case(case):
         return '%s(%s%s) gave %s, the property demands %s' % (
             fn, short(case['value']), ''.join(', %s=%r' % (k, case[k]) for k in ('strict', 'min', 'max') if k in case),
             got, want)
+    if fn == 'boolstr' and case['value']['t'] == 'str':
+        # agreement clause, no model and no word list involved: on unpadded input is_valid_boolstr(s) holds exactly
+        # when bool_from_string(s, strict=True) returns a boolean
+        text = obj_of(case['value'])
+        if oracle_strip(text) == text:
+            strict = run_impl({'fn': 'bool', 'value': case['value'], 'strict': True})
+            if (got == '1') != strict.startswith('val:'):
+                return ('is_valid_boolstr(%s) gave %s but bool_from_string(..., strict=True) gave %s: they must agree on '
+                        'unpadded input' % (short(case['value']), got, strict))
     return None
 
 
